@@ -386,40 +386,49 @@ func collectRuns(v reflect.Value, raw []lexer.Token, byOffset map[int]int, path 
 		}
 	}
 	var kids []runInfo
-	for i := 0; i < v.NumField(); i++ {
-		f := v.Field(i)
-		name := v.Type().Field(i).Name
-		if name == "Tokens" || name == "Pos" || name == "EndPos" || name == "PosMixin" {
-			continue
-		}
-		switch f.Kind() {
-		case reflect.Slice:
-			if f.Type().Elem().Kind() == reflect.Struct || f.Type().Elem().Kind() == reflect.Ptr || f.Type().Elem().Kind() == reflect.Interface {
-				if f.Type() == reflect.TypeOf([]lexer.Token{}) {
-					continue
-				}
-				prevHi := -1
-				for j := 0; j < f.Len(); j++ {
-					k := collectRuns(f.Index(j), raw, byOffset, fmt.Sprintf("%s.%s[%d]", path, name, j), errs, checkPos)
-					if k.has && k.lo >= 0 {
-						if k.lo < prevHi {
-							*errs = append(*errs, fmt.Sprintf("%s: slice elements are not in input order (run starts at raw %d, previous ended at %d)", k.path, k.lo, prevHi))
-						}
-						prevHi = k.hi
-						kids = append(kids, k)
-					}
-				}
-			}
-		case reflect.Struct, reflect.Ptr, reflect.Interface:
-			if f.Type() == reflect.TypeOf(lexer.Token{}) {
+	var scan func(v reflect.Value)
+	scan = func(v reflect.Value) {
+		for i := 0; i < v.NumField(); i++ {
+			f := v.Field(i)
+			name := v.Type().Field(i).Name
+			if name == "Tokens" || name == "Pos" || name == "EndPos" || name == "PosMixin" {
 				continue
 			}
-			k := collectRuns(f, raw, byOffset, path+"."+name, errs, checkPos)
-			if k.has && k.lo >= 0 {
-				kids = append(kids, k)
+			if v.Type().Field(i).Anonymous && f.Kind() == reflect.Struct {
+				// fields of a struct embedded by value belong to this node (the embedded struct is not a production)
+				scan(f)
+				continue
+			}
+			switch f.Kind() {
+			case reflect.Slice:
+				if f.Type().Elem().Kind() == reflect.Struct || f.Type().Elem().Kind() == reflect.Ptr || f.Type().Elem().Kind() == reflect.Interface {
+					if f.Type() == reflect.TypeOf([]lexer.Token{}) {
+						continue
+					}
+					prevHi := -1
+					for j := 0; j < f.Len(); j++ {
+						k := collectRuns(f.Index(j), raw, byOffset, fmt.Sprintf("%s.%s[%d]", path, name, j), errs, checkPos)
+						if k.has && k.lo >= 0 {
+							if k.lo < prevHi {
+								*errs = append(*errs, fmt.Sprintf("%s: slice elements are not in input order (run starts at raw %d, previous ended at %d)", k.path, k.lo, prevHi))
+							}
+							prevHi = k.hi
+							kids = append(kids, k)
+						}
+					}
+				}
+			case reflect.Struct, reflect.Ptr, reflect.Interface:
+				if f.Type() == reflect.TypeOf(lexer.Token{}) {
+					continue
+				}
+				k := collectRuns(f, raw, byOffset, path+"."+name, errs, checkPos)
+				if k.has && k.lo >= 0 {
+					kids = append(kids, k)
+				}
 			}
 		}
 	}
+	scan(v)
 	if self.has {
 		for _, k := range kids {
 			if self.lo < 0 || k.lo < self.lo || k.hi > self.hi {
